@@ -778,6 +778,25 @@ def ap_match(a, b):
     return True
 
 
+def ap_contains(hay, needle):
+    """Does the access path `hay` mention the value `needle` (equal up to cut-off depth, see ap_match)?"""
+    root, projs = hay
+    for i in range(len(projs), -1, -1):
+        if ap_match((root, tuple(projs[:i])), needle):
+            return True
+    k = root[0]
+    subs = []
+    if k in ("call", "agg"):
+        subs = list(root[2])
+    elif k == "binop":
+        subs = [root[2], root[3]]
+    elif k in ("unop", "cast"):
+        subs = [root[2]]
+    elif k == "discr":
+        subs = [root[1]]
+    return any(ap_contains(x, needle) for x in subs)
+
+
 def private_helper(F, crate, name):
     """The function `name` of `crate` if it is a private free function or inherent method (what `extract function` produces)."""
     idx = F.__dict__.setdefault("_by_path", {})
